@@ -12,6 +12,16 @@ BASE_NOTE = (
 
 # property -> (category, text, technique, design_ref, extra note)
 CLAIMS = {
+    "C12": (
+        "proof",
+        "The value-level kernels is_truthy, _eq, _lt, _contains, Nil/Empty/Blank.__eq__ and the evaluate methods of the comparison and and/or expression classes are verified, for all operand values of the tagged union "
+        "(none/bool/int/float/str/reference), against spec functions written from the statement (only false/nil/undefined falsy; true != 1; ordering only str x str and number x number; booleans never order; "
+        "LiquidTypeError iff incomparable; contains on falsy operands false, on strings uses str(right)). Grouping is a table obligation on PRECEDENCES and the Pratt loop's stop test, plus a bounded enumeration of all and/or chains; "
+        "a bounded operator-table check (22x22 operand pairs x 8 operators) exercises the real tags.",
+        "contract-based deductive verification (spec functions over a tagged union, z3 datatypes/strings) + table obligations + bounded contract check",
+        "DESIGN.md section 4 C12",
+        "Float comparisons are abstract (uninterpreted); drops with __liquid__ are excluded by precondition.",
+    ),
     "C21": (
         "other",
         "Totality is carried by a structural precondition obligation (every list.pop() in TagAnalysis is guarded by a non-emptiness test of the same list) and 'no false alarms' by a derived-table obligation: "
